@@ -28,6 +28,18 @@ def bound(module, **names):
                 module.__dict__[k] = v
 
 
+class RealCodeRaised(Exception):
+    """the REAL molgri code raised during a replay (as opposed to the harness's own oracle arithmetic failing on an extreme model)"""
+
+
+@contextlib.contextmanager
+def real_code():
+    try:
+        yield
+    except Exception as e:  # noqa: BLE001
+        raise RealCodeRaised(f"{type(e).__name__}: {e}") from e
+
+
 def z(x):
     """scalar -> z3 real term"""
     if isinstance(x, (bool, np.bool_)):
@@ -70,3 +82,52 @@ def exp_facts(terms):
 
 def isclose(a, b, rtol=1e-9, atol=1e-12):
     return abs(a - b) <= atol + rtol * max(abs(a), abs(b))
+
+
+def exp_saturation(terms, extra_args=()):
+    """facts about the real exponential, instantiated for every pair of arguments at which `exp` is applied in `terms`
+    (plus `extra_args`): positivity, exp(a) = exp(b) * exp(a - b), monotonicity.  Used as a second attempt when a claim that
+    holds for the real exponential is refuted by an arbitrary interpretation of the uninterpreted `exp` (e.g. the code
+    computes exp(x)/exp(y) where the oracle writes exp(x - y))."""
+    from symx.core import uf_exp
+    e = uf_exp()
+    args = {}
+
+    def walk(t, seen):
+        if t.get_id() in seen:
+            return
+        seen.add(t.get_id())
+        if z3.is_app(t):
+            if t.decl().name() == "exp" and t.num_args() == 1:
+                a = z3.simplify(t.arg(0))
+                args[a.get_id()] = a
+            for ch in t.children():
+                walk(ch, seen)
+    seen = set()
+    for t in terms:
+        walk(t, seen)
+    for a in extra_args:
+        a = z3.simplify(a)
+        args[a.get_id()] = a
+    A = list(args.values())
+    out = [e(a) > 0 for a in A]
+    for a in A:
+        for b in A:
+            if a.get_id() == b.get_id():
+                continue
+            d = z3.simplify(a - b)
+            out.append(e(a) == e(b) * e(d))
+            out.append(e(d) > 0)
+            out.append((d > 0) == (e(d) > 1))
+            out.append((d == 0) == (e(d) == 1))
+            out.append((a < b) == (e(a) < e(b)))
+    return out
+
+
+def bypass_guard(exc):
+    """Harnesses that build an object with object.__new__ (because its real __init__ runs Qhull / MDAnalysis) skip whatever that
+    __init__ initialises.  An AttributeError for a missing attribute on such a path may therefore be an artefact of the construction
+    and not a defect of the code: it is reported as a harness error (exit 2), never as a violation."""
+    from symx.core import Unsupported
+    if isinstance(exc, AttributeError) and "has no attribute" in str(exc):
+        raise Unsupported(f"AttributeError on an object constructed without its __init__ (cannot tell a defect from a construction artefact): {exc}")
